@@ -376,8 +376,24 @@ def e_int(fr, v, cls=UNIV, num=2):
     return T(fr, cls, False, num, enc_int(v))
 
 
+PRIV = 3
+
+
 def trailing(fr):
-    return T(fr, CTX, False, 99, b"future") + T(fr, CTX, True, 98, T(fr, UNIV, False, 4, b"x")) if fr.trailing else b""
+    """Unrecognised trailing elements after the defined components of a SEQUENCE.  trailing=True / 1: two elements with
+    context tags no LDAP structure uses; 2..4: elements whose tag *number* coincides with a component the decoder does
+    know at some position (OCTET STRING 4, BOOLEAN 1, INTEGER 2, ENUMERATED 10, SEQUENCE 16) but in the APPLICATION /
+    PRIVATE class, which no component inside a protocolOp uses - a decoder that compares tag numbers only mistakes them."""
+    k = int(fr.trailing)
+    if k == 0:
+        return b""
+    if k == 1:
+        return T(fr, CTX, False, 99, b"future") + T(fr, CTX, True, 98, T(fr, UNIV, False, 4, b"x"))
+    if k == 2:
+        return T(fr, PRIV, False, 4, b"p4") + T(fr, APPL, True, 16, T(fr, UNIV, False, 4, b"x"))
+    if k == 3:
+        return T(fr, APPL, False, 4, b"a4") + T(fr, PRIV, False, 1, b"\xff")
+    return T(fr, PRIV, False, 2, b"\x05") + T(fr, PRIV, False, 10, b"\x01") + T(fr, PRIV, True, 17, b"")
 
 
 def e_result(fr, r):
